@@ -33,13 +33,24 @@ SETTING_ABBR = ["UTC", "EST", "+0530", "-0800", "JST", "-0330", "MSK"]  # not CE
 EN_MONTHS = ["January", "February", "March", "April", "May", "June", "July", "August", "September", "October", "November", "December"]
 
 
+_EXTRA = {}
+
+
 def zone_obj(name):
     import pytz
 
     key = name.replace(":", "")
+    if key in _EXTRA:
+        return pytz.FixedOffset(_EXTRA[key]) if _EXTRA[key] else pytz.utc
     if key in ABBR:
         return pytz.FixedOffset(ABBR[key]) if ABBR[key] else pytz.utc
     return pytz.timezone(name)
+
+
+# IANA zones whose own abbreviation on some dates is spelled like an abbreviation the library's table
+# defines differently (Kolkata's IST vs the table's IST = +2, London's BST vs +11, ...)
+COLLISION_ZONES = ["Asia/Kolkata", "Europe/London", "Asia/Shanghai", "Asia/Manila", "Europe/Dublin", "America/Havana", "Asia/Taipei", "America/Chicago", "America/Los_Angeles"]
+COLLISION_ABBR = ["IST", "BST", "CST", "PST"]
 
 
 class Context:
@@ -48,6 +59,18 @@ class Context:
 
         self.zone = rng.choice(world.ZONE_POOL)
         self.iana = rng.sample(list(pytz.common_timezones), 40)
+        # offsets of those abbreviations as the tree's own table defines them (first entry of that name):
+        # which offset an abbreviation has is another property's business, here it is only a conversion target
+        self.table = {}
+        try:
+            from dateparser.timezones import timezone_info_list
+
+            for info in timezone_info_list:
+                for name, secs in info["timezones"]:
+                    if name in COLLISION_ABBR and name not in self.table and secs % 60 == 0:
+                        self.table[name] = secs // 60
+        except Exception:  # noqa
+            self.table = {}
 
 
 def transitions(zone_name, lo, hi):
@@ -67,7 +90,7 @@ def draw_instant(rng, zones):
     r = rng.random()
     if r < 0.35:
         z = rng.choice(zones)
-        tt = transitions(z, 1952, 2035) if z not in ABBR else []
+        tt = transitions(z, 1952, 2035) if (z not in ABBR and z not in _EXTRA) else []
         if tt:
             t = rng.choice(tt)
             return t + dt.timedelta(seconds=rng.choice([-7200, -3601, -3600, -1800, -1, 0, 1, 1800, 3599, 3600, 7200, 86400, -86400])), True
@@ -112,6 +135,15 @@ def gen_case(rng, ctx):
         if r < 0.55:
             B = rng.choice(ctx.iana) if rng.random() < 0.8 else rng.choice(SETTING_ABBR)
             settings["TO_TIMEZONE"] = B
+        extra = {}
+        if ctx.table and rng.random() < 0.06:
+            # an IANA source zone and a table abbreviation as the target that the source zone itself may "spell"
+            A = rng.choice(COLLISION_ZONES) if rng.random() < 0.8 else A
+            if A:
+                settings["TIMEZONE"] = A
+            B = rng.choice(sorted(ctx.table))
+            settings["TO_TIMEZONE"] = B
+            extra = {B: ctx.table[B]}
         aw = rng.choice([None, True, False])
         if aw is not None:
             settings["RETURN_AS_TIMEZONE_AWARE"] = aw
@@ -125,7 +157,9 @@ def gen_case(rng, ctx):
         inst, near = draw_instant(rng, zlist)
         inst = inst.replace(microsecond=0)
         tzi = zone_obj(interp)
-        case = {"zone": zone, "kind": kind, "settings": settings, "string_zone": sz, "near_dst": near, "policy": ["frozen"]}
+        case = {"zone": zone, "kind": kind, "settings": settings, "string_zone": sz, "near_dst": near, "policy": ["frozen"], "abbr_offsets": extra}
+        _EXTRA.clear()
+        _EXTRA.update(extra)
         if kind == "relative":
             unit = rng.choice(["hours", "minutes"])
             n = rng.randrange(0, 49) if unit == "hours" else rng.randrange(0, 3000)
@@ -134,7 +168,7 @@ def gen_case(rng, ctx):
             # no offset change, between T - delta and T (padded), of the zone the arithmetic happens in:
             # the interpreting zone, or TIMEZONE when the string's own zone is converted to it first
             arith = A if (sz and A) else interp
-            if arith.replace(":", "") not in ABBR:
+            if arith.replace(":", "") not in ABBR and arith not in _EXTRA:
                 lo, hi = T - delta - dt.timedelta(hours=3), T + dt.timedelta(hours=3)
                 if any(lo <= t <= hi for t in transitions(arith, T.year - 1, T.year + 1)):
                     continue
@@ -208,6 +242,8 @@ def eval_case(case):
     import dateparser
 
     world.set_zone(case["zone"])
+    _EXTRA.clear()
+    _EXTRA.update(case.get("abbr_offsets") or {})
     clk = world.clock()
     clk.set(case["clock_us"], case["policy"])
     n0 = len(clk.reads)
@@ -280,7 +316,7 @@ def eval_case(case):
     def zclass(z):
         if z is None:
             return "local:" + ("utc" if case["zone"] == "UTC" else "nonutc")
-        return "abbr" if z.replace(":", "") in ABBR else "iana"
+        return "abbr" if (z.replace(":", "") in ABBR or z in _EXTRA) else "iana"
     key = None
     if src_off != exp_off or (not A and not sz and case["zone"] != "UTC"):
         key = (case["kind"], A or ("local:" + case["zone"]), B or "-", str(aw), sz or "-", "dst" if case["near_dst"] else "-", "conv" if src_off != exp_off else "same")
